@@ -3,12 +3,235 @@
 -/
 import Cvss.Model.Extract
 import Cvss.Spec.Grammar
+import Cvss.Lemmas.Parse
+import Cvss.Lemmas.Extract
+import Cvss.Props.C04
 namespace Cvss.Props.C13
-open Cvss Cvss.Model Cvss.Spec
+open Cvss Cvss.Model Cvss.Spec Cvss.Model.Extract
 
 /-- every legal field of v2 / v3 consists of characters of the class `[A-Za-z:/]` only -/
 theorem fields_in_class :
     ((Grammar.fieldStrings Grammar.g2 ++ Grammar.fieldStrings Grammar.g3).all fun (f, _) => f.all Extract.inClass) = true := by
+  decide +kernel
+
+/-! ### the scanner -/
+
+/-- every match the scanner reports is a contiguous substring of the text -/
+theorem findAll_infix (isDigit : Char → Bool) (fuel : Nat) (text : Str) :
+    ∀ m ∈ findAll isDigit fuel text, m <:+: text :=
+  findAll_infix' isDigit fuel text
+
+/-- TOTAL: extraction returns a list for every text, provided the two constructors never let an
+    exception from outside the hierarchy escape (that is C04, proved there for every string) -/
+theorem parseText_total (isDigit : Char → Bool) (text : Str)
+    (h2 : ∀ s, construct .v2 s ≠ .error .foreign) (h3 : ∀ s, construct .v3 s ≠ .error .foreign) :
+    (parseText isDigit text).isSome = true :=
+  collect_isSome h2 h3 _ []
+
+/-- SOUND: every returned object is the result of constructing, with the CVSS2 or CVSS3 class, a
+    contiguous substring of the text (so that substring is a valid vector of that object's version;
+    a CVSS4 object is never produced) -/
+theorem parseText_sound (isDigit : Char → Bool) (text : Str) (os : List AnyObj)
+    (h : parseText isDigit text = some os) :
+    ∀ o ∈ os, ∃ sub, sub <:+: text ∧ (construct .v2 sub = .ok o ∨ construct .v3 sub = .ok o) := by
+  refine collect_invariant
+    (fun acc => ∀ o ∈ acc, ∃ sub, sub <:+: text ∧ (construct .v2 sub = .ok o ∨ construct .v3 sub = .ok o))
+    (findAll isDigit text.length text) ?_ [] os (by simp) h
+  intro acc m o hm hres hacc x hx
+  rcases mem_addDedup hx with hx | rfl
+  · exact hacc x hx
+  · exact ⟨m, findAll_infix isDigit _ text m hm, resultOf_ok hres⟩
+
+/-- DUPLICATE-FREE: no two returned objects are equal -/
+theorem parseText_nodup (isDigit : Char → Bool) (text : Str) (os : List AnyObj)
+    (h : parseText isDigit text = some os) : os.Pairwise (fun a b => a.eq b = false) :=
+  collect_invariant (fun acc => acc.Pairwise (fun a b => a.eq b = false))
+    (findAll isDigit text.length text) (fun _ _ o _ _ hacc => pairwise_addDedup o hacc) [] os
+    List.Pairwise.nil h
+
+/-! ### shape of a valid v2 / v3 vector -/
+
+/-- Boolean check of one legal field string `f` of metric `m`: class characters only, at least two
+    characters longer than the metric name, and its first two characters cannot complete `CVSS:3.<d>/` -/
+def goodField (p : Str × Str) : Bool :=
+  p.1.all inClass && decide (p.2.length + 2 ≤ p.1.length) &&
+    (match p.1 with
+     | a :: b :: _ => a != '.' && a != '/' && b != '/'
+     | _ => false)
+
+theorem fields_good :
+    ((Grammar.fieldStrings Grammar.g2 ++ Grammar.fieldStrings Grammar.g3).all goodField) = true := by
+  decide +kernel
+
+structure GoodField (kv : Str × Str) : Prop where
+  cls : (fieldOf kv).all inClass = true
+  len : kv.1.length + 2 ≤ (fieldOf kv).length
+  head : ∃ a b t, fieldOf kv = a :: b :: t ∧ a ≠ '.' ∧ a ≠ '/' ∧ b ≠ '/'
+
+theorem goodField_prop {kv : Str × Str} (h : goodField (fieldOf kv, kv.1) = true) : GoodField kv := by
+  unfold goodField at h
+  simp only [Bool.and_eq_true, decide_eq_true_eq] at h
+  obtain ⟨⟨h1, h2⟩, h3⟩ := h
+  refine ⟨h1, h2, ?_⟩
+  split at h3
+  · rename_i a b t heq
+    simp only [Bool.and_eq_true, bne_iff_ne, ne_eq] at h3
+    exact ⟨a, b, t, heq, h3.1.1, h3.1.2, h3.2⟩
+  · cases h3
+
+theorem legal_mem_fieldStrings {T : Tables} {g : Grammar.G} (hp : C04.Pinned T g) {kv : Str × Str}
+    (hl : LegalPair T kv) : (fieldOf kv, kv.1) ∈ Grammar.fieldStrings g := by
+  obtain ⟨vs, v, hlook, hv, hf⟩ := (hp.isField_iff (fieldOf kv) kv.1).2 ⟨kv.2, rfl, hl⟩
+  unfold Grammar.fieldStrings
+  refine List.mem_flatMap.2 ⟨(kv.1, vs), mem_of_lookup_eq_some _ _ _ hlook, ?_⟩
+  exact List.mem_map.2 ⟨v, hv, by rw [hf]⟩
+
+theorem good_of_legal2 {kv : Str × Str} (hl : LegalPair V2.tables kv) : GoodField kv :=
+  goodField_prop (List.all_eq_true.1 fields_good _
+    (List.mem_append_left _ (legal_mem_fieldStrings C04.pinned2 hl)))
+
+theorem good_of_legal3 {kv : Str × Str} (hl : LegalPair V3.tables kv) : GoodField kv :=
+  goodField_prop (List.all_eq_true.1 fields_good _
+    (List.mem_append_right _ (legal_mem_fieldStrings C04.pinned3 hl)))
+
+/-- weight of a metric: its field together with one separator has at least this many characters -/
+def weight (k : Str) : Nat := k.length + 3
+
+/-- the rendering of a non-empty map of good fields -/
+theorem body_facts (m : MMap) (hne : m ≠ []) (hg : ∀ kv ∈ m, GoodField kv) :
+    (join '/' (m.map fieldOf)).all inClass = true ∧
+    ((keys m).map weight).sum ≤ (join '/' (m.map fieldOf)).length + 1 ∧
+    ∃ a b t, join '/' (m.map fieldOf) = a :: b :: t ∧ a ≠ '.' ∧ a ≠ '/' ∧ b ≠ '/' := by
+  induction m with
+  | nil => exact absurd rfl hne
+  | cons kv rest ih =>
+    have hkv := hg kv (by simp)
+    obtain ⟨a, b, t, hf, ha, ha', hb⟩ := hkv.head
+    cases rest with
+    | nil =>
+      simp only [List.map_cons, List.map_nil, join_singleton, keys, List.sum_cons, List.sum_nil]
+      refine ⟨hkv.cls, ?_, a, b, t, hf, ha, ha', hb⟩
+      have := hkv.len
+      unfold weight; omega
+    | cons kv' rest' =>
+      obtain ⟨ih1, ih2, -⟩ := ih (by simp) (fun x hx => hg x (List.mem_cons_of_mem _ hx))
+      simp only [List.map_cons, keys, List.sum_cons] at ih1 ih2 ⊢
+      rw [join_cons_cons']
+      refine ⟨?_, ?_, a, b, t ++ '/' :: join '/' (fieldOf kv' :: List.map fieldOf rest'), ?_, ha, ha', hb⟩
+      · rw [List.all_append, List.all_cons, hkv.cls, ih1]
+        decide
+      · have := hkv.len
+        simp only [List.length_append, List.length_cons]
+        unfold weight at ih2 ⊢; omega
+      · rw [hf]; rfl
+
+theorem sum_le_of_nodup_subset (w : Str → Nat) :
+    ∀ (l₁ l₂ : List Str), l₁.Nodup → (∀ x ∈ l₁, x ∈ l₂) → (l₁.map w).sum ≤ (l₂.map w).sum := by
+  intro l₁
+  induction l₁ with
+  | nil => intro l₂ _ _; simp
+  | cons x l ih =>
+    intro l₂ hn hsub
+    have hx : x ∈ l₂ := hsub x (by simp)
+    have hperm := List.perm_cons_erase hx
+    have hsum : (l₂.map w).sum = w x + ((l₂.erase x).map w).sum := by
+      rw [(hperm.map w).sum_nat]; simp
+    rw [List.nodup_cons] at hn
+    have := ih (l₂.erase x) hn.2 (fun y hy =>
+      (List.mem_erase_of_ne (by intro e; rw [e] at hy; exact hn.1 hy)).2
+        (hsub y (List.mem_cons_of_mem _ hy)))
+    rw [hsum, List.map_cons, List.sum_cons]
+    omega
+
+theorem construct_v2_ok {v : Str} {o : AnyObj} (hc : construct .v2 v = .ok o) :
+    ∃ m, V2.parse v = .ok m := by
+  cases hp : V2.parse v with
+  | ok m => exact ⟨m, rfl⟩
+  | error e => simp [construct, V2.construct, hp, Except.map] at hc
+
+theorem construct_v3_ok {v : Str} {o : AnyObj} (hc : construct .v3 v = .ok o) :
+    ∃ i m, V3.parse v = .ok (i, m) := by
+  cases hp : V3.parse v with
+  | ok r => exact ⟨r.1, r.2, rfl⟩
+  | error e => simp [construct, V3.construct, hp, Except.map] at hc
+
+/-- a string the CVSS2 class accepts: at least 26 class characters, not starting like the prefix -/
+theorem v2_shape {v : Str} {o : AnyObj} (hc : construct .v2 v = .ok o) :
+    v.all inClass = true ∧ 26 ≤ v.length ∧ ∃ a b t, v = a :: b :: t ∧ a ≠ '.' ∧ a ≠ '/' ∧ b ≠ '/' := by
+  obtain ⟨m, hp⟩ := construct_v2_ok hc
+  obtain ⟨rfl, hne, hleg, hnd, hman⟩ := C04.v2_parse_ok_fields v m hp
+  obtain ⟨h1, h2, h3⟩ := body_facts m hne (fun kv hkv => good_of_legal2 (hleg kv hkv))
+  refine ⟨h1, ?_, h3⟩
+  have := sum_le_of_nodup_subset weight V2.tables.mandatory (keys m) (by decide) hman
+  have e : (V2.tables.mandatory.map weight).sum = 27 := by decide
+  omega
+
+/-- a string the CVSS3 class accepts: `CVSS:3.0/` or `CVSS:3.1/`, then at least 26 class characters -/
+theorem v3_shape {v : Str} {o : AnyObj} (hc : construct .v3 v = .ok o) :
+    ∃ x body, (x = '0' ∨ x = '1') ∧ v = 'C' :: 'V' :: 'S' :: 'S' :: ':' :: '3' :: '.' :: x :: '/' :: body ∧
+      body.all inClass = true ∧ 26 ≤ body.length := by
+  obtain ⟨i, m, hp⟩ := construct_v3_ok hc
+  obtain ⟨⟨p, hpi, rfl⟩, hne, hleg, hnd, hman⟩ := C04.v3_parse_ok_fields v i m hp
+  obtain ⟨h1, h2, -⟩ := body_facts m hne (fun kv hkv => good_of_legal3 (hleg kv hkv))
+  have := sum_le_of_nodup_subset weight V3.tables.mandatory (keys m) (by decide) hman
+  have e : (V3.tables.mandatory.map weight).sum = 36 := by decide
+  have hpm := List.mem_of_getElem? hpi
+  simp only [V3.prefixes, List.mem_cons, List.not_mem_nil, or_false] at hpm
+  have hlen : 26 ≤ (join '/' (m.map fieldOf)).length := by omega
+  rcases hpm with rfl | rfl
+  · exact ⟨'0', _, Or.inl rfl, rfl, h1, hlen⟩
+  · exact ⟨'1', _, Or.inr rfl, rfl, h1, hlen⟩
+
+/-- a character outside the class `[A-Za-z:/]`, or the text boundary -/
+def DelimitedLeft (pre : Str) : Prop := ∀ c, pre.getLast? = some c → inClass c = false
+def DelimitedRight (post : Str) : Prop := ∀ c, post.head? = some c → inClass c = false
+
+/-- COMPLETE for delimited vectors: if a string `v` that the CVSS2 class accepts occurs in the text
+    delimited on both sides by characters outside the class (or the text boundary), an object equal to
+    `CVSS2(v)` is returned.  (`\d` must match at least the ASCII digits.) -/
+theorem parseText_complete_v2 (isDigit : Char → Bool) (pre v post : Str) (o : AnyObj)
+    (hc : construct .v2 v = .ok o) (hl : DelimitedLeft pre) (hr : DelimitedRight post)
+    (os : List AnyObj) (h : parseText isDigit (pre ++ v ++ post) = some os) :
+    ∃ o' ∈ os, o'.eq o = true := by
+  obtain ⟨hall, hlen, a, b, t, rfl, ha, ha', hb⟩ := v2_shape hc
+  have hm := matchHere_plain isDigit _ post hall hlen hr
+  obtain ⟨ms, ms', hfa⟩ := findAll_delimited isDigit pre post a b t hl ha ha' hb hm
+  unfold parseText at h
+  rw [hfa] at h
+  refine collect_complete ms ms' _ o os ?_ h
+  unfold resultOf
+  rw [if_neg, hc]
+  intro hs
+  obtain ⟨r, hr'⟩ := (startsWith_iff _ _).1 hs
+  have hmem : '3' ∈ a :: b :: t := by rw [hr']; simp
+  have := List.all_eq_true.1 hall _ hmem
+  simp [inClass] at this
+
+/-- likewise for a string the CVSS3 class accepts -/
+theorem parseText_complete_v3 (isDigit : Char → Bool) (hd : isDigit '0' = true ∧ isDigit '1' = true)
+    (pre v post : Str) (o : AnyObj)
+    (hc : construct .v3 v = .ok o) (hl : DelimitedLeft pre) (hr : DelimitedRight post)
+    (os : List AnyObj) (h : parseText isDigit (pre ++ v ++ post) = some os) :
+    ∃ o' ∈ os, o'.eq o = true := by
+  obtain ⟨x, body, hx, rfl, hall, hlen⟩ := v3_shape hc
+  have hdx : isDigit x = true := by
+    rcases hx with rfl | rfl
+    · exact hd.1
+    · exact hd.2
+  have hm := matchHere_prefixed isDigit x body post hdx hall hlen hr
+  obtain ⟨ms, ms', hfa⟩ := findAll_delimited isDigit pre post 'C' 'V' _ hl (by decide) (by decide)
+    (by decide) hm
+  unfold parseText at h
+  rw [hfa] at h
+  refine collect_complete ms ms' _ o os ?_ h
+  unfold resultOf
+  rw [if_pos, hc]
+  exact (startsWith_iff _ _).2 ⟨_, rfl⟩
+
+/-- non-vacuity: a delimited v3 vector in a sentence is found -/
+example :
+    (parseText (fun c => c.isDigit) c!"score (CVSS:3.1/AV:N/AC:L/PR:N/UI:N/S:U/C:H/I:H/A:H), see advisory").map
+      (fun os => os.map (fun o => o.clean)) = some [c!"CVSS:3.1/AV:N/AC:L/PR:N/UI:N/S:U/C:H/I:H/A:H"] := by
   decide +kernel
 
 end Cvss.Props.C13
